@@ -238,17 +238,25 @@ Definition site_ord2 (l : list asite) (fn : string) (i : nat) : ordering :=
   match find_site fn i l with Some s => match s_ord2 s with Some o => o | None => Relaxed end | None => Relaxed end.
 
 Open Scope string_scope.
+(* roles = atomic transitions of the canonical automata of gen/Gen_Skel.v (pinned by proofs/ShapeSignal.v):
+     poll                 0 the load, 1 the fence
+     async_blocking_wait  0 the load of each of the three phases (one transition), 1 the fence
+     wait                 0 the spin loads (before and inside the loop), 1 the fence, 2 the CAS, 3 the load after park
+     wait_timeout         0 the load of the first spin phase, 1 the final load, 2 the load of the timed loop, 3 the fence
+     send / send_copy / recv / terminate (Signal::wake inlined)   0 the CAS, 1 the async store, 2 the sync store
+   an ordering is the weakest among the source sites that play the role, and among the four wake paths *)
 Definition ords_of (l : list asite) : sig_ords :=
   let p := "signal.Signal.poll" in let a := "signal.Signal.async_blocking_wait" in
   let w := "signal.Signal.wait" in let t := "signal.Signal.wait_timeout" in
-  let k := "signal.Signal.wake" in
+  let ks := ["signal.Signal.send"; "signal.Signal.send_copy"; "signal.Signal.recv"; "signal.Signal.terminate"] in
   mkOrds (site_ord l p 0) (site_ord l p 1)
-         (site_ord l a 0) (site_ord l a 1) (site_ord l a 2) (site_ord l a 3) (site_ord l a 4) (site_ord l a 5)
-         (site_ord l w 0) (site_ord l w 1) (site_ord l w 2) (site_ord l w 3)
-         (site_ord l w 4) (site_ord2 l w 4) (site_ord l w 5)
-         (site_ord l t 0) (site_ord l t 1) (site_ord l t 2) (site_ord l t 3) (site_ord l t 4)
+         (site_ord l a 0) (site_ord l a 1) (site_ord l a 0) (site_ord l a 1) (site_ord l a 0) (site_ord l a 1)
+         (site_ord l w 0) (site_ord l w 1) (site_ord l w 0) (site_ord l w 1)
+         (site_ord l w 2) (site_ord2 l w 2) (site_ord l w 3)
+         (site_ord l t 0) (site_ord l t 3) (site_ord l t 2) (site_ord l t 3) (site_ord l t 1)
          (site_ord l "signal.Signal.is_terminated" 0)
-         (site_ord l k 0) (site_ord2 l k 0) (site_ord l k 1) (site_ord l k 2).
+         (ord_meet_all (map (fun k => site_ord l k 0) ks)) (ord_meet_all (map (fun k => site_ord2 l k 0) ks))
+         (ord_meet_all (map (fun k => site_ord l k 2) ks)) (ord_meet_all (map (fun k => site_ord l k 1) ks)).
 Close Scope string_scope.
 
 (* ---------- the generator: the events the code can produce in a state ---------- *)
